@@ -114,10 +114,10 @@ def random_schedule(rnd, n):
     return steps
 
 
-def program_schedules(rnd, n_ticks, variant):
+def program_schedules(rnd, n_ticks, variant, fixed=None):
     """Start + n ticks with the input trajectory `traj`; variant decides what else happens"""
     from .gen import programs
-    traj = rnd.choice(programs.trajectories(n_ticks, rnd))
+    traj = rnd.choice(programs.trajectories(n_ticks, rnd)) if fixed is None else programs.trajectories(n_ticks, rnd)[fixed]
     steps = [{"req": [{"k": "control", "name": "Start"}], "in": {"In": traj[0]}}]
     for k in range(1, n_ticks):
         req = []
@@ -155,6 +155,9 @@ def build(ctx: core.Ctx):
         for j in range(1 if ctx.quick else 3):
             variant = variants[(i + j) % len(variants)]
             runs.append(dict(_run(f"prog-{i}-{j}", "prog", method, program_schedules(rnd, 40, variant)), variant=variant))
+    for i, method in enumerate(programs.CURATED):          # the curated shapes also with the two deterministic trajectories
+        for k, fixed in enumerate((-2, -1)):
+            runs.append(dict(_run(f"prog-cur-{i}-{k}", "prog", method, program_schedules(rnd, 50, "plain", fixed=fixed)), variant="plain"))
     return {"runs": runs, "design": {"RunState": design}}
 
 
